@@ -25,6 +25,8 @@ class Profile:
         self.type_errors = 0.03    # probability of deliberately ill-typed operand
         self.max_depth = 3
         self.stmts = (3, 8)
+        self.probe = 0.35          # probability that a loop / branch condition or iteration target is observed through the
+                                   # displaying identity method Fq (how often and when it is evaluated becomes visible)
         self.scope_faults = 0.0    # weight of statements that probe block scoping (dead names, shadowing, constants)
         self.__dict__.update(kw)
 
@@ -43,6 +45,7 @@ class Gen:
         self.in_method = None
         self.counter = 0
         self.dead = []              # names whose block has ended
+        self.has_probe = False
 
     # ------------------------------------------------------------ helpers
     def fresh(self, pool=VAR_NAMES):
@@ -336,7 +339,7 @@ class Gen:
         t = self.block(d + 1)
         others = []
         for _ in range(self.rng.choice([0, 0, 1, 2])):
-            others.append((self.expr("bool", d), self.block(d + 1)))
+            others.append((self.observed(self.expr("bool", d)), self.block(d + 1)))
         els = self.block(d + 1) if self.rng.random() < 0.5 else None
         return [Branch(c, t, others, els)]
 
@@ -350,14 +353,20 @@ class Gen:
         self.scopes.pop()
         body += self.block(d + 1)
         self.in_loop -= 1
-        cond = Logic("lt", Var(i), Num(k))
+        cond = Logic("lt", self.observed(Var(i)), Num(k))
         if self.rng.random() < 0.2:
             cond = Logic("and", cond, self.expr("bool", d + 1))
         return [Decl([(False, [i], Num(0))]), While(cond, body)]
 
+    def observed(self, e):
+        """e seen through the displaying identity method (defined by program() when the profile asks for probes)"""
+        if self.has_probe and self.rng.random() < self.p.probe:
+            return Call("Fq", [e])
+        return e
+
     def s_iter(self, d):
         t = self.rng.choice(["list", "list", "dict"])
-        e = self.expr(t, d + 1)
+        e = self.observed(self.expr(t, d + 1))
         nn = self.rng.choice([0, 1, 1, 2])
         names = [self.fresh() for _ in range(nn)]
         self.scopes.append({})
@@ -456,6 +465,13 @@ class Gen:
         n = self.rng.choice(os_)
         c = self.type_of(n)[4:]
         info = self.classes.get(c)
+        if info and info.get("counters") and self.rng.random() < 0.45:
+            # in-place update of a number property of ONE object, then the same property of every object in sight
+            pn = self.rng.choice(info["counters"])
+            out = [ExprS(Bump(Var(n), pn, self.rng.random() < 0.3, Num(self.rng.randrange(1, 9))))]
+            same = [o for o in os_ if self.type_of(o) == "obj:" + c]
+            out.append(Display(*[Member(Var(o), pn) for o in same[:4]]))
+            return out
         if not info or not info["methods"]:
             return self.s_assign(d)
         m = self.rng.choice(sorted(info["methods"]))
@@ -520,6 +536,10 @@ class Gen:
                 body.append(Decl([(False, [v], Arith("+", Var(pn), Num(1)))]))
                 self.declare(v, "num")
         if method_of is not None:
+            for pn in self.classes[method_of].get("counters", []):
+                if self.rng.random() < 0.6:
+                    amount = Num(self.rng.randrange(1, 5))
+                    body.append(ExprS(Bump(None, pn, self.rng.random() < 0.25, amount)))
             props = self.classes[method_of]["props"]
             for pn, pt in props.items():
                 if self.rng.random() < 0.5:
@@ -562,7 +582,12 @@ class Gen:
         if exc:
             props["内容"] = "str"
             plist.append(("内容", Str("")))
-        self.classes[c] = {"props": props, "methods": {}, "ctor": None}
+        counters = []
+        if not exc and self.rng.random() < 0.5:
+            # a counter: a number default that is only ever updated in place (自增 / 自减) and read for display
+            counters = ["Pn"]
+            plist.insert(self.rng.randrange(0, len(plist) + 1), ("Pn", Num(self.rng.randrange(0, 50))))
+        self.classes[c] = {"props": props, "methods": {}, "ctor": None, "counters": counters}
         methods = []
         for mn in self.rng.sample(METH_NAMES, self.rng.choice([0, 1, 2])):
             f, params, body, cs = self.func_def(mn, method_of=c)
@@ -577,6 +602,9 @@ class Gen:
         nfun = rng.choice([0, 1, 2, 3]) if p.funcs else 0
         ncls = rng.choice([0, 1, 2]) if p.classes else 0
         nexc = rng.choice([0, 0, 1]) if p.exceptions and p.classes else 0
+        if p.probe and p.funcs and rng.random() < 0.7:
+            self.has_probe = True
+            defs.append(Func("Fq", ["Nq"], [Display(Str("q"), Var("Nq")), Return(Var("Nq"))], []))
         # definitions are hoisted: they may be placed anywhere at the top level
         for _ in range(ncls):
             c, plist, methods = self.class_def()
